@@ -1,4 +1,6 @@
-(* C18 — median_of_labels: the line-level model equals the declarative reference. *)
+(* C18 — median_of_labels: the line-level model (with the final gather through the anti-index
+   table) equals the declarative reference, for ANY request list (median_of_labels_correct_all:
+   labels may be requested repeatedly); median_of_labels_correct is the duplicate-free corollary. *)
 From Coq Require Import ZArith List Bool Arith Lia Sorted Permutation.
 From Centro Require Import Base.SortC18 Model.VecC18 Model.MedianC18 Spec.SpecC18 Proofs.VecC18Lemmas.
 Import ListNotations.
@@ -397,16 +399,114 @@ Proof.
     + unfold include_tab in Hx. rewrite include_notin in Hx by exact Hout. discriminate.
 Qed.
 
+(* ---------------------------------------------------------------- the tables when a label is requested
+   more than once: the scatter is last-write-wins, so a label owns its LAST position *)
+Definition is_last (idx : list nat) (j p : nat) : Prop :=
+  p < length idx /\ nth p idx 0 = j /\ forall q, p < q -> q < length idx -> nth q idx 0 <> j.
+
+Lemma is_last_in idx j p : is_last idx j p -> In j idx.
+Proof. intros [H1 [H2 _]]. rewrite <- H2. apply nth_In. exact H1. Qed.
+
+Lemma is_last_exists idx j : In j idx -> exists p, is_last idx j p.
+Proof.
+  induction idx as [|i r IH]; intros Hj; [contradiction|].
+  destruct (in_dec Nat.eq_dec j r) as [Hin|Hout].
+  - destruct (IH Hin) as [p [Hp [Hn Hq]]]. exists (S p).
+    split; [cbn [length]; lia|]. split; [exact Hn|].
+    intros [|q] H1 H2; [lia|]. cbn [nth]. apply Hq; cbn [length] in H2; lia.
+  - destruct Hj as [->|Hj]; [|contradiction]. exists 0.
+    split; [cbn [length]; lia|]. split; [reflexivity|].
+    intros [|q] H1 H2; [lia|]. cbn [nth]. intros E. apply Hout. rewrite <- E.
+    apply nth_In. cbn [length] in H2; lia.
+Qed.
+
+Lemma is_last_NoDup idx k : NoDup idx -> k < length idx -> is_last idx (nth k idx 0) k.
+Proof.
+  intros ND Hk. split; [exact Hk|]. split; [reflexivity|].
+  intros q H1 H2 E. apply (proj1 (NoDup_nth idx 0) ND) in E; [lia|exact H2|exact Hk].
+Qed.
+
+(* base[idx] = vals with repeated indices: entry j holds the value written at the last position of j *)
+Lemma scatter_last {A} idx : forall (vals base : list A) d j p,
+  length vals = length idx -> (forall x, In x idx -> x < length base) ->
+  is_last idx j p -> nth j (scatter idx vals base) d = nth p vals d.
+Proof.
+  induction idx as [|i r IH]; intros vals base d j p HL HB [Hp [Hn Hq]]; [cbn [length] in Hp; lia|].
+  destruct vals as [|v vals]; [discriminate|]. rewrite scatter_cons.
+  destruct p as [|p]; cbn [nth] in Hn |- *.
+  - subst i. rewrite scatter_other.
+    + apply set_nth_same. apply HB. left; reflexivity.
+    + intros Hin. destruct (In_nth r j 0 Hin) as [q [Hq1 Hq2]].
+      apply (Hq (S q)); [lia|cbn [length]; lia|exact Hq2].
+  - apply IH.
+    + cbn [length] in HL; lia.
+    + intros x Hx. rewrite set_nth_length. apply HB. right; exact Hx.
+    + split; [cbn [length] in Hp; lia|]. split; [exact Hn|].
+      intros q H1 H2. apply (Hq (S q)); [lia|cbn [length]; lia].
+Qed.
+
+Lemma include_in_all indices n x : (forall j, In j indices -> j < n) -> In x indices ->
+  nth x (scatter indices (repeat true (length indices)) (repeat false n)) false = true.
+Proof.
+  intros Hn Hx. destruct (is_last_exists indices x Hx) as [p Hp].
+  rewrite (scatter_last indices _ _ false x p).
+  - apply nth_repeat_lt. apply Hp.
+  - apply repeat_length.
+  - intros j Hj. rewrite repeat_length. auto.
+  - exact Hp.
+Qed.
+
+Lemma anti_last indices n l p : (forall j, In j indices -> j < n) -> is_last indices l p ->
+  getn (scatter indices (seq 0 (length indices)) (repeat 0 n)) l = p.
+Proof.
+  intros Hn Hp. unfold getn. rewrite (scatter_last indices _ _ 0 l p).
+  - rewrite seq_nth by apply Hp. reflexivity.
+  - apply seq_length.
+  - intros j Hj. rewrite repeat_length. auto.
+  - exact Hp.
+Qed.
+
+(* the pixels renumbered to the last position p of label l are exactly the pixels labelled l *)
+Lemma tables_sel_last indices n l p image labels :
+  (forall j, In j indices -> j < n) -> is_last indices l p -> length image = length labels ->
+  let include_tab := scatter indices (repeat true (length indices)) (repeat false n) in
+  let anti := scatter indices (seq 0 (length indices)) (repeat 0 n) in
+  let include := map (fun l => nth l include_tab false) labels in
+  map snd (filter (fun t => fst t =? p)
+             (combine (map (getn anti) (compress include labels)) (compress include image)))
+  = sel image labels l.
+Proof.
+  intros Hn Hp HL include_tab anti include. unfold include.
+  pose proof (is_last_in _ _ _ Hp) as Hl.
+  apply sel_compress with (inc := fun x => nth x include_tab false); [| |exact HL].
+  - intros x Hx E. subst x. unfold include_tab in Hx.
+    rewrite include_in_all in Hx by auto. discriminate.
+  - intros x Hx. destruct (in_dec Nat.eq_dec x indices) as [Hin|Hout].
+    + destruct (is_last_exists indices x Hin) as [q Hq]. unfold anti.
+      rewrite (anti_last indices n x q Hn Hq).
+      destruct (Nat.eqb_spec x l) as [E|Hxl].
+      * subst x. assert (q = p) as E.
+        { rewrite <- (anti_last indices n l q Hn Hq). apply anti_last; assumption. }
+        subst q. apply Nat.eqb_refl.
+      * apply Nat.eqb_neq. intros E. subst q. apply Hxl.
+        destruct Hq as [_ [E1 _]]. destruct Hp as [_ [E2 _]]. congruence.
+    + unfold include_tab in Hx. rewrite include_notin in Hx by exact Hout. discriminate.
+Qed.
+
 (* ---------------------------------------------------------------- the theorem *)
 Lemma compress_lengths (m : list bool) (l1 : list nat) (l2 : list Z) :
   length m = length l1 -> length l1 = length l2 -> length (compress m l1) = length (compress m l2).
 Proof. intros H1 H2. rewrite !compress_length by lia. reflexivity. Qed.
 
-Theorem median_of_labels_correct : forall (image : list Z) (labels indices : list nat),
-  length image = length labels -> NoDup indices ->
+Lemma repeat_map_const {A B} (b : B) (l : list A) : repeat b (length l) = map (fun _ => b) l.
+Proof. induction l as [|a r IH]; cbn [length repeat map]; [reflexivity|]. rewrite IH. reflexivity. Qed.
+
+(* no hypothesis on the request list: labels may be requested more than once, in any order *)
+Theorem median_of_labels_correct_all : forall (image : list Z) (labels indices : list nat),
+  length image = length labels ->
   median_of_labels image labels indices = median_ref image labels indices.
 Proof.
-  intros image labels indices HL ND. unfold median_of_labels.
+  intros image labels indices HL. unfold median_of_labels.
   destruct indices as [|i0 ir] eqn:Ei; [reflexivity|]. cbv iota. rewrite <- Ei in *. clear Ei i0 ir.
   cbv zeta.
   set (n := S (Nat.max (list_max labels) (list_max indices))).
@@ -419,23 +519,19 @@ Proof.
   assert (forall j, In j indices -> j < n) as Hn.
   { intros j Hj. assert (list_max indices <= list_max indices) as H by lia.
     apply list_max_le in H. rewrite Forall_forall in H. specialize (H j Hj). unfold n. lia. }
-  assert (forall k, k < m -> map snd (filter (fun p => fst p =? k) (combine L1 I1))
-                             = sel image labels (nth k indices 0)) as Hsel.
-  { intros k Hk. apply (tables_sel indices n k image labels ND Hn Hk HL). }
+  assert (forall l p, is_last indices l p ->
+            map snd (filter (fun t => fst t =? p) (combine L1 I1)) = sel image labels l) as Hsel.
+  { intros l p Hp. apply (tables_sel_last indices n l p image labels Hn Hp HL). }
+  assert (forall l p, is_last indices l p -> getn anti l = p) as Hanti.
+  { intros l p Hp. apply (anti_last indices n l p Hn Hp). }
   assert (length L1 = length I1) as HL1.
   { unfold L1, I1. rewrite map_length. apply compress_lengths; [|lia].
     unfold include. apply map_length. }
   unfold median_ref.
-  assert (forall f : nat -> option Z,
-            map f indices = map (fun k => f (nth k indices 0)) (seq 0 m)) as Hrhs.
-  { intros f. rewrite <- (map_map (fun k => nth k indices 0) f). unfold m.
-    rewrite map_seq_nth. reflexivity. }
-  rewrite Hrhs. clear Hrhs.
   destruct L1 as [|l0 lr] eqn:EL1.
-  - replace (repeat (@None Z) m) with (map (fun _ : nat => @None Z) (seq 0 m)).
-    + apply map_ext_in. intros k Hk. apply in_seq in Hk. rewrite <- Hsel by lia. reflexivity.
-    + clear. generalize 0. induction m as [|m IH]; intros s; cbn [seq map repeat]; [reflexivity|].
-      rewrite IH. reflexivity.
+  - unfold m. rewrite repeat_map_const.
+    apply map_ext_in. intros l Hl. destruct (is_last_exists indices l Hl) as [p Hp].
+    rewrite <- (Hsel l p Hp). reflexivity.
   - rewrite <- EL1 in *. clear EL1 l0 lr.
     unfold lexsort. fold (tri_in L1 I1).
     set (T := tsort (tri_in L1 I1)). set (Q := map (tri_pair L1 I1) T).
@@ -443,19 +539,43 @@ Proof.
       by (unfold Q; rewrite !map_map; reflexivity).
     replace (map (getz I1) (map t_ix T)) with (map snd Q)
       by (unfold Q; rewrite !map_map; reflexivity).
-    apply map_ext_in. intros k Hk. apply in_seq in Hk.
-    apply (median_at_correct Q (sel image labels (nth k indices 0)) k m).
+    apply map_ext_in. intros l Hl. destruct (is_last_exists indices l Hl) as [p Hp].
+    assert (p < m) as Hpm by apply Hp.
+    rewrite (Hanti l p Hp).
+    rewrite nth_map_lt with (d' := 0) by (rewrite seq_length; exact Hpm).
+    rewrite seq_nth by exact Hpm. change (0 + p) with p. cbv beta.
+    apply (median_at_correct Q (sel image labels l) p m).
     + apply tri_sorted. exact HL1.
     + apply sorted_perm_eq.
       * apply seg_sorted, tri_sorted. exact HL1.
       * apply zsort_sorted.
-      * eapply Permutation_trans; [|apply zsort_perm]. rewrite <- Hsel by lia.
+      * eapply Permutation_trans; [|apply zsort_perm]. rewrite <- (Hsel l p Hp).
         apply Permutation_map, Permutation_filter_c18, tri_perm. exact HL1.
-    + lia.
+    + exact Hpm.
 Qed.
+
+(* the duplicate-free case (the statement the other properties' files use) *)
+Theorem median_of_labels_correct : forall (image : list Z) (labels indices : list nat),
+  length image = length labels -> NoDup indices ->
+  median_of_labels image labels indices = median_ref image labels indices.
+Proof. intros image labels indices HL _. apply median_of_labels_correct_all. exact HL. Qed.
 
 Example median_ex :
   median_of_labels [2;8;4;6;10]%Z [1;3;1;3;3] [5;3;1] = [None; Some 8; Some 3]%Z.
+Proof. vm_compute. reflexivity. Qed.
+
+(* a repeated request: every occurrence of a label gets that label's median *)
+Example median_ex_repeated :
+  median_of_labels [10;2;8]%Z [1;2;1] [1;1;3;2;3;1] = [Some 9; Some 9; None; Some 2; None; Some 9]%Z.
+Proof. vm_compute. reflexivity. Qed.
+
+Example median_ex_repeated_ref :
+  median_ref [10;2;8]%Z [1;2;1] [1;1;3;2;3;1] = [Some 9; Some 9; None; Some 2; None; Some 9]%Z.
+Proof. vm_compute. reflexivity. Qed.
+
+(* repeated requests of a label no pixel carries (the early exit) *)
+Example median_ex_repeated_absent :
+  median_of_labels [10]%Z [1] [7;7] = [None; None].
 Proof. vm_compute. reflexivity. Qed.
 
 (* the hypotheses of the theorem hold on that input, and the reference computes the same *)
@@ -467,4 +587,5 @@ Proof.
   repeat constructor; cbn [In]; intros H; repeat destruct H as [H|H]; try discriminate H; exact H.
 Qed.
 
+Print Assumptions median_of_labels_correct_all.
 Print Assumptions median_of_labels_correct.
